@@ -198,13 +198,17 @@ func runSeq(c *corr.Ctx, sc *SeqCase, name string) {
 				return fmt.Sprintf("item %d %s", v.(int), stStr(r))
 			}))
 		case "close":
-			r.Close()
-			o.discard(true)
-			add("ring close", "ok "+stStr(r))
+			add("ring close", guard(func() string {
+				r.Close()
+				o.discard(true)
+				return "ok " + stStr(r)
+			}))
 		case "reset":
-			r.Reset()
-			o.discard(false)
-			add("ring reset", "ok "+stStr(r))
+			add("ring reset", guard(func() string {
+				r.Reset()
+				o.discard(false)
+				return "ok " + stStr(r)
+			}))
 		default:
 			panic("bad op " + op.K)
 		}
